@@ -191,14 +191,16 @@ def forget_loggers(root_name):
         del d[name]
 
 
-def impl_routing(mods, ops):
-    """run ops on the real code; returns outs (same shape as the model's)"""
+def impl_routing(mods, ops, rootname=None):
+    """run ops on the real code; returns outs (same shape as the model's).
+    rootname: name of the logger the module loggers are children of (default: a fresh name); a node may be called like
+    one of its modules, and the module of a record is the LAST component of the logger name only"""
     import logging
     import mlzlog
     from frappy.logging import RemoteLogHandler
     from frappy.modules import Module
     _counter[0] += 1
-    root = mlzlog.MLZLogger('fv%d' % _counter[0])
+    root = mlzlog.MLZLogger(rootname or 'fv%d' % _counter[0])
     root.setLevel(logging.DEBUG)
     root.addHandler(RemoteLogHandler())
     srv = _SrvStub(root)
@@ -307,6 +309,11 @@ def gen_routing(rng, big):
     return mods, ops
 
 
+def gen_rootname(rng, mods):
+    """a quarter of the nodes are called like one of their modules (logger names <node>.<module>)"""
+    return rng.choice(mods) if rng.random() < 0.25 else None
+
+
 def wire_ops(ops):
     """ops as sent to the Lean side (integral floats are the integers Python takes them for; '.'/'' = null)"""
     out = []
@@ -345,7 +352,7 @@ def run(ctx):
         rot_cases.append(gen_rotation(rng, big))
     for _ in range(ctx.budget(400, 12000)):
         m, o = gen_routing(rng, big)
-        route_cases.append({'mods': m, 'ops': o})
+        route_cases.append({'mods': m, 'ops': o, 'root': gen_rootname(rng, m)})
 
     # ---------- rotation ----------
     reqs, meta = [], []
@@ -399,7 +406,7 @@ def run(ctx):
     shrunk = [0]
     reqs, impl_outs = [], []
     for case in route_cases:
-        outs = impl_routing(case['mods'], case['ops'])
+        outs = impl_routing(case['mods'], case['ops'], case.get('root'))
         impl_outs.append(outs)
         w = wire_ops(case['ops'])
         reqs.append({'p': 'C20', 'k': 'route', 'mods': case['mods'], 'ops': w})
@@ -417,6 +424,7 @@ def run(ctx):
         errors = sum(1 for o in outs if o == 'error')
         res.count('routing.delivered' if delivered else 'routing.nothing-delivered')
         res.count('routing.errors=%s' % min(errors, 3))
+        res.count('routing.node-named-like-a-module' if case.get('root') else 'routing.node-name-distinct')
         if delivered and withheld:
             res.nontriv(case)
         if len(res.samples) < 4 and delivered and withheld and len(case['ops']) < 9:
@@ -424,18 +432,19 @@ def run(ctx):
         if ctx.model_ok and model['outs'] != outs:
             res.disagreements.append({'case': {'kind': 'routing', 'case': case}, 'model': model['outs'], 'impl': outs})
         if judge['bad'] is not None:
-            def fails(ops, mods=case['mods']):
-                o = impl_routing(mods, ops)
+            def fails(ops, mods=case['mods'], rootname=case.get('root')):
+                o = impl_routing(mods, ops, rootname)
                 a = ctx.driver.batch([{'p': 'C20', 'k': 'judge_route', 'mods': mods, 'ops': wire_ops(ops), 'outs': o}])[0]
                 return a.get('bad') is not None
             small = ddmin(case['ops'], fails) if shrunk[0] < 3 else case['ops']
             shrunk[0] += 1
-            o = impl_routing(case['mods'], small)
+            o = impl_routing(case['mods'], small, case.get('root'))
             last = small[-1] if small else None
             kinds = '+'.join(sorted({op[0] for op in small}))
             res.violations.append({'sig': 'C20:routing:' + kinds,
-                                   'what': f'log routing differs from the chosen levels: ops={small} delivered={o}',
-                                   'case': {'kind': 'routing', 'case': {'mods': case['mods'], 'ops': small}},
+                                   'what': f'log routing differs from the chosen levels: ops={small} delivered={o}'
+                                           + (f' (node logger named {case["root"]!r})' if case.get('root') else ''),
+                                   'case': {'kind': 'routing', 'case': {'mods': case['mods'], 'ops': small, 'root': case.get('root')}},
                                    'detail': {'original_ops': case['ops'], 'first_bad_index': judge['bad'], 'last': last}})
     # ---------- routing under interleavings ----------
     from props import c20_conc
@@ -458,7 +467,7 @@ def replay(ctx, rp):
         print('model  :', a[0].get('after'))
         print('judge  :', a[1])
         return 0 if a[1].get('ok') and not st['error'] else 1
-    outs = impl_routing(case['case']['mods'], case['case']['ops'])
+    outs = impl_routing(case['case']['mods'], case['case']['ops'], case['case'].get('root'))
     w = wire_ops(case['case']['ops'])
     a = ctx.driver.batch([{'p': 'C20', 'k': 'route', 'mods': case['case']['mods'], 'ops': w},
                           {'p': 'C20', 'k': 'judge_route', 'mods': case['case']['mods'], 'ops': w, 'outs': outs}])
